@@ -228,9 +228,13 @@ KidsLines(dk, ind, dummy) ==
     IF DOMAIN dk = {} THEN <<>>
     ELSE LET k == CHOOSE k \in DOMAIN dk : TRUE
          IN NodeLines(dk[k], ind, dummy) \o KidsLines([j \in DOMAIN dk \ {k} |-> dk[j]], ind, dummy)
+(* dummy = 0: the comment line of an element right below it (as the writer of the format puts it); 1: behind the lines of *)
+(* its members - the format does not order the lines below an element, a reader takes both (seed C04-12)               *)
 NodeLines(d, ind, dummy) ==
-    <<HeadLine(d, ind)>> \o DocLines(d, ind + 1) \o KidsLines(d.kids, ind + 1, dummy)
+    IF dummy = 1 THEN <<HeadLine(d, ind)>> \o KidsLines(d.kids, ind + 1, dummy) \o DocLines(d, ind + 1)
+    ELSE <<HeadLine(d, ind)>> \o DocLines(d, ind + 1) \o KidsLines(d.kids, ind + 1, dummy)
 DiffLines(D) == <<Line(0, "tiny", <<"2", "0">>)>> \o KidsLines(D.kids, 0, 0)
+DiffLinesDocLast(D) == <<Line(0, "tiny", <<"2", "0">>)>> \o KidsLines(D.kids, 0, 1)
 (* A comment that is the empty string is a value of a mapping set (a `c` line with an empty cell), but a .tinydiff reads an  *)
 (* empty cell as "no comment": a diff that adds, removes or edits such a comment cannot be written down.                     *)
 ActHasEmptyDoc(act) == \E i \in 2..Len(act) : act[i] = <<"">>
